@@ -38,8 +38,10 @@ OPS = st.one_of(
                                          "same_o": so, "same_s": ss},
               st.sampled_from(["sample", "observation", "both", "detect"]),
               ops.KEY, ops.KEY,
-              st.sampled_from([True, True, False, "subset", "superset"]),
-              st.sampled_from([True, True, False, "subset", "superset"])),
+              st.sampled_from([True, True, "same-order", False, "subset",
+                               "superset"]),
+              st.sampled_from([True, True, "same-order", False, "subset",
+                               "superset"])),
     st.just({"kind": "transpose"}),
     st.just({"kind": "copy"}),
     st.builds(lambda a, m, s, ip, sub, ex: {"kind": "update_ids", "axis": a,
@@ -364,6 +366,8 @@ def _align(case, op, t, before, ref, rec):
         # strict superset of mine (neither of which is "the same ID set")
         if how is True:
             return [mine[i] for i in perm]
+        if how == "same-order":     # nothing to reorder on this axis
+            return list(mine)
         if how == "subset" and len(mine) >= 2:
             return [mine[i] for i in perm][:-1]
         if how == "superset":
@@ -375,7 +379,8 @@ def _align(case, op, t, before, ref, rec):
             for i in range(len(o_ids))]
     other = Table(gen.encode(rows, "dense")[0], o_ids, s_ids)
     other_before = observe.snapshot(other)
-    can_o, can_s = op["same_o"] is True, op["same_s"] is True
+    can_o = op["same_o"] in (True, "same-order")
+    can_s = op["same_s"] in (True, "same-order")
     ok = {"sample": can_s, "observation": can_o, "both": can_o and can_s,
           "detect": can_o or can_s}[axis]
     rec.cls("align:%s:%s" % (axis, "ok" if ok else "refused"))
@@ -390,6 +395,10 @@ def _align(case, op, t, before, ref, rec):
                         (axis, can_o, can_s))
     r = t.align_to(other, axis) if case.get("positional") else \
         t.align_to(other, axis=axis)
+    if r is t or r is other:
+        raise Violation("returned-receiver", "align_to returned %s instead "
+                        "of a new table" % ("its receiver" if r is t else
+                                            "its argument"))
     after = observe.snapshot(r)
     al_o = axis in ("observation", "both") or (axis == "detect" and can_o)
     al_s = axis in ("sample", "both") or (axis == "detect" and can_s)
